@@ -140,6 +140,16 @@ def _worker(msg):
         return resgen.to_wire(_TABLES["d"][name](v))
     if kind == "deep":
         v = deep_template(v)          # built inside the worker: pickling a 3000-deep value would overflow the harness' own stack
+    if kind == "history":
+        # a long-lived process: many templates, one after the other, each full of content the process has never seen
+        for k, t in enumerate(history_templates(v)):
+            try:
+                _TABLES["e"][name](t)
+            except ValidationError:
+                pass
+            except Exception as e:
+                raise type(e)(f"template #{k} of the history: {e}") from None
+        return "model"
     try:
         _TABLES["e"][name](v)
         return "model"
@@ -161,9 +171,10 @@ def sb():
 
 
 def close_sandboxes():
-    for s in _SB:
+    for s in _SB + globals().get("_SBH", []):
         s.close()
     _SB.clear()
+    globals().get("_SBH", []).clear()
 
 
 def to_impl(o):
@@ -452,6 +463,94 @@ def any_value(rng):
     return robgen.rand_json(rng, 3)
 
 
+def history_templates(x):
+    """the templates of one history (deterministic in x): `n` small templates whose generic and typed-but-open positions hold
+    `per` strings / keys / numbers each that no earlier template of this process contained"""
+    rng = random.Random(x["seed"])
+    alphabet = "abcdefghijklmnopqrstuvwxyzABCDEFGHIJKLMNOPQRSTUVWXYZ0123456789-_/:. "
+
+    def fresh(j):
+        kind = x["kind"]
+        tok = "".join(rng.choice(alphabet) for _ in range(rng.randint(3, 18))) + f"{x['seed']}x{j}"
+        if kind == "text":
+            return tok
+        if kind == "arn":
+            return f"arn:aws:s3:::{tok.replace(' ', '')}/*"
+        if kind == "json-text":
+            return json.dumps({tok: [j, tok]})
+        if kind == "number-text":
+            return str(rng.randrange(10 ** 12) * 1000 + j)
+        if kind == "number":
+            return rng.randrange(10 ** 12) * 1000 + j
+        if kind == "date-text":
+            return f"{1000 + (j * 7 + rng.randrange(7)) % 8999:04d}-{rng.randint(1, 12):02d}-{rng.randint(1, 28):02d}"
+        if kind == "ip-text":
+            return f"{rng.randint(1, 223)}.{rng.randint(0, 255)}.{(j >> 8) & 255}.{j & 255}/32"
+        return {"Ref": tok}
+    j = 0
+    for k in range(x["n"]):
+        props, md, tags = {}, {}, []
+        for _ in range(x["per"]):
+            j += 1
+            where = rng.random()
+            if where < 0.5:
+                props[f"P{j}"] = fresh(j)
+            elif where < 0.65:
+                props.setdefault("L", []).append(fresh(j))
+            elif where < 0.8:
+                props.setdefault("D", {})[f"k{j}"] = {"n": [fresh(j)]}
+            elif where < 0.9:
+                md[f"m{j}"] = fresh(j)
+            else:
+                tags.append({"Key": f"t{j}", "Value": fresh(j)})
+        res = {f"Q{k}": {"Type": rng.choice(["AWS::SQS::Queue", "Custom::Thing", "AWS::Lambda::Function"]), "Properties": props, "Metadata": md},
+               f"B{k}": {"Type": "AWS::S3::Bucket", "Properties": {"BucketName": fresh(j) if x["kind"] in ("text", "fn") else f"b{j}", "Tags": tags}},
+               f"P{k}": {"Type": "AWS::IAM::ManagedPolicy", "Properties": {"PolicyDocument": {"Statement": [{
+                   "Effect": "Allow", "Action": [f"s3:Get{j}"], "Resource": [fresh(j) if x["kind"] in ("text", "arn", "fn") else f"r{j}"],
+                   "Condition": {"StringLike": {f"aws:k{j}": [fresh(j)]}} if x["kind"] in ("text", "arn", "number-text", "date-text", "ip-text") else {"Bool": {"aws:SecureTransport": "true"}}}]}}}}
+        yield {"Resources": res, "Parameters": {f"Par{j}": {"Type": "String", "Default": fresh(j) if x["kind"] != "fn" else "d"}},
+               "Outputs": {f"O{j}": {"Value": fresh(j)}}}
+
+
+class HistorySurface(_Slow, core.Surface):
+    """state that outlives one call: the property speaks of ANY input, so also of the 5000th template a process parses"""
+    name = "sandbox: one process, pycfmodel.parse over a history of templates with never-seen-before content"
+    theorem = "C19_validators_clean + C19_pydantic_contract (validators are functions of their argument: no hypothesis on process history)"
+    frozen = frozenset({"seed", "kind"})
+
+    def impl(self, x):
+        o = sandbox_history().run(("history", "parse", dict(x)))
+        self.last = to_impl(o)
+        return self.last
+
+    def model(self, rn, x):
+        return ("OK", "clean")
+
+    def agree(self, x, i, m):
+        return i[0] == "OK"
+
+    def tags(self, x):
+        return {"history", "kind:" + x["kind"]}
+
+    def nontrivial(self, x, i, m):
+        return x["n"] * x["per"] >= 1000
+
+
+_SBH = []
+
+
+def sandbox_history():
+    # its own worker, never respawned between cases on purpose: cases accumulate in one process
+    if not _SBH:
+        _SBH.append(sandbox.Sandbox(_worker, wall_s=60.0, cpu_s=90, as_mb=AS_MB, init=_init))
+    return _SBH[0]
+
+
+HISTORY = HistorySurface()
+SURFACES[HISTORY.name] = HISTORY
+HISTORY_KINDS = ["text", "arn", "json-text", "number-text", "number", "date-text", "ip-text", "fn"]
+
+
 def seed_templates(rng, ops, types, n):
     out = []
     for i in range(n):
@@ -497,6 +596,9 @@ def cases(rng, tier, shard, nshards):
         direct = [s for s in DIRECT if not s.key.startswith("not_from_") or hasattr(G, "_" + s.key)]
         seeds = seed_templates(rng, ops, types, 12 if tier == "quick" else 60)
         n = {"quick": 330, "thorough": 11000}[tier]
+        for j, kind in enumerate(HISTORY_KINDS):
+            if j % nshards == shard or tier == "thorough":
+                yield HISTORY, {"seed": rng.randrange(10 ** 6), "kind": kind, "n": 60 if tier == "quick" else 400, "per": 40}
         for k in range(n):
             v = any_value(rng)
             for s in direct:
